@@ -278,4 +278,60 @@ Verdict judge_c11(const Plan &plan, const sim::Shm *shm, const ChildExit &, cons
     return v;
 }
 
+// C08, thread slice: every sink's directory, read back with the strict gzip reader, must hold exactly the
+// records its thread sent, in order
+Verdict judge_c08t(const Plan &plan, const sim::Shm *shm, const ChildExit &, const std::string &rundir, Verdict v)
+{
+    if (!v.ok)
+        return v;
+    if (shm->status == sim::ST_SIMFAIL) {
+        fail11(v, shm->fail_class, shm->fail_msg);
+        return v;
+    }
+    int gz = 0, files = 0;
+    for (size_t p = 0; p < plan.producers.size(); p++) {
+        int producer = (int)p + 1;
+        std::string want;
+        for (size_t i = 0; i < plan.producers[p].size(); i++) {
+            const Op &op = plan.producers[p][i];
+            if (op.kind != "send")
+                continue;
+            std::string t = "s" + std::to_string(producer) + "." + std::to_string(i) + " " + op.s;
+            if (op.e > 0) {
+                std::string pad(op.e, 'q');
+                for (int x = 0; x < op.e; x += 61)
+                    pad[x] = char('a' + (x / 61 + producer) % 26);
+                t += ' ';
+                t += pad;
+            }
+            want += t + "\n";
+        }
+        auto segs = logdir::read_log_dir(rundir + "/s" + std::to_string(producer), "app", "log");
+        std::string got;
+        for (auto &sg : segs) {
+            files++;
+            if (sg.rn.ok && sg.rn.gz)
+                gz++;
+            if (!sg.decode_ok) {
+                fail11(v, "bad-gzip",
+                       "sink " + std::to_string(producer) + ": " + sg.name + " is not a valid gzip file of the rotated log ("
+                               + sg.decode_err + ") - the sinks of other threads were rotating at the same time");
+                return v;
+            }
+            got += sg.content;
+        }
+        if (got != want) {
+            fail11(v, "gz-content-mismatch",
+                   "sink " + std::to_string(producer) + ": reading its files back gives " + std::to_string(got.size())
+                           + " bytes, its thread sent " + std::to_string(want.size()));
+            return v;
+        }
+    }
+    v.probes["thread_slice_runs"] = 1;
+    v.probes["thread_slice_gz_files"] = gz;
+    v.probes["thread_slice_files"] = files;
+    v.probes["file_io_yields"] = shm->counters[sim::C_YIELD_IO];
+    return v;
+}
+
 } // namespace tsim
